@@ -130,6 +130,7 @@ type vf19Case struct {
 	viol   string // first violation noticed inside a conn call
 	terms  []vf19Terminal
 
+	bConn     net.Conn // side b handed to copyLoop (nil: conns[1] itself); a wrapper around conns[1] in relay-proxied
 	callerGID int
 	started   bool
 	returned  bool
@@ -150,7 +151,8 @@ type vf19Conn struct {
 	consumed []byte // bytes Read has handed to the relay
 	ended    bool   // a terminal read event was consumed (sticky)
 	endErr   error
-	maxRead  int // 0: unlimited
+	maxRead  int            // 0: unlimited
+	hs       *vf19Handshake // relay-proxied: this conn first plays a proxy server (nil otherwise)
 
 	written  []byte // bytes the relay wrote to this side
 	wfailAt  int    // -1: never; else Write fails once this many bytes were accepted
@@ -204,6 +206,17 @@ func (x *vf19Conn) Read(p []byte) (int, error) {
 		if x.closed {
 			c.bump()
 			return 0, vf19ErrClosed
+		}
+		if x.hs != nil {
+			if n := x.hs.read(x, p); n > 0 {
+				c.bump()
+				return n, nil
+			}
+			if !x.hs.done {
+				// the dialer waits for the proxy's reply
+				c.cond.Wait()
+				continue
+			}
 		}
 		if x.ended {
 			c.bump()
@@ -274,6 +287,11 @@ func (x *vf19Conn) Write(p []byte) (int, error) {
 	defer c.mu.Unlock()
 	x.nwrite++
 	c.bump()
+	if x.hs != nil && !x.hs.done && !x.closed {
+		x.hs.write(p)
+		c.bump()
+		return len(p), nil
+	}
 	if x.gated {
 		for x.gated && x.credits == 0 && !x.closed {
 			x.wwaiting++
@@ -391,7 +409,11 @@ func (c *vf19Case) start() {
 			c.bump()
 			c.mu.Unlock()
 		}()
-		err = copyLoop(c.conns[0], c.conns[1])
+		var b net.Conn = c.conns[1]
+		if c.bConn != nil {
+			b = c.bConn
+		}
+		err = copyLoop(c.conns[0], b)
 	}()
 	<-ready
 }
@@ -418,7 +440,7 @@ func (c *vf19Case) tailParkedLocked() bool {
 func (c *vf19Case) parkedLocked() int {
 	n := 0
 	for _, x := range c.conns {
-		if x.rwaiting > 0 && !x.closed && !x.ended && len(x.cur) == 0 && len(x.avail) == 0 {
+		if x.rwaiting > 0 && !x.closed && !x.ended && len(x.cur) == 0 && len(x.avail) == 0 && (x.hs == nil || len(x.hs.out) == 0) {
 			n += x.rwaiting
 		}
 		if x.wwaiting > 0 && !x.closed && x.gated && x.credits == 0 {
